@@ -617,9 +617,9 @@ Strengthening (2026-10-04, later): ReplTab.tla (symbol table across steps, roll-
 of input lines into steps), gen/replsess.py, phases `table' and `reader' of this file.
   Unchanged tree: quick exit 0 with VERIF_SEED = default, 1, 2, 3 (90-110 s at load average 50-200; the two new phases take 12 s + 11 s
   when the machine is idle enough); thorough 31 min at load average 150-220 (table 5412 sessions, reader 852 sessions / 3555 items).
-  Seeded changes (bin/seedtest): C13-1 (isChecked reset moved) caught by the histories of Repl.tla as before and by table sessions with
-  gap = 1; C13-2 (scoUndoStabEntry drops the whole entry) caught by 120 table sessions (45 overload-of-existing-name, 75
-  new-structured-type-overlapping-imports: `<<' / `f' lost after the roll-back); C13-3 (escape inside a literal never reset) caught by 8
+  Seeded changes (bin/seedtest): C13-1 (isChecked reset moved) caught by the histories of Repl.tla as before (1115), by 243 table sessions
+  (the definition or use that follows a rejected form) and 34 reader sessions; C13-2 (scoUndoStabEntry drops the whole entry) caught by 120 table sessions (45 overload-of-existing-name, 75
+  new-structured-type-overlapping-imports: `<<' / `f' lost after the roll-back); C13-3 (escape inside a literal never reset) caught by 14
   packed reader sessions (every literal with `_').
   Own mutations (scratch worktree /tmp/wt-c13s, removed), quick tier, all VIOLATION:
     MA scan.c scanIsContinued: `case '_'' inside a string literal removed (`_"' ends the literal): 7 reader sessions.
